@@ -163,6 +163,19 @@ def _resolve_at(expr, stmt, fnode, depth=6):
                     return None  # defined in a compound / tuple statement: keep the name
         return None
 
+    def reaching_sub(sub_src, base, at):
+        """nearest earlier `base[...] = value` with exactly this subscript text (no other write to base in between)"""
+        for block, i in chains.get(id(at), []):
+            for st in reversed(block[:i]):
+                if isinstance(st, ast.Assign) and len(st.targets) == 1 and isinstance(st.targets[0], ast.Subscript) and ast.unparse(st.targets[0]) == sub_src:
+                    return st
+                for x in ast.walk(st):
+                    if isinstance(x, ast.Name) and x.id == base and isinstance(x.ctx, ast.Store):
+                        return None
+                    if isinstance(x, ast.Subscript) and isinstance(x.ctx, ast.Store) and isinstance(x.value, ast.Name) and x.value.id == base:
+                        return None
+        return None
+
     def resolve(e, at, d):
         class T(ast.NodeTransformer):
             def visit_Name(self, n):
@@ -171,6 +184,13 @@ def _resolve_at(expr, stmt, fnode, depth=6):
                     if st is not None:
                         return resolve(copy.deepcopy(st.value), st, d - 1)
                 return n
+
+            def visit_Subscript(self, n):
+                if isinstance(n.ctx, ast.Load) and d > 0 and isinstance(n.value, ast.Name):
+                    st = reaching_sub(ast.unparse(n), n.value.id, at)
+                    if st is not None:
+                        return resolve(copy.deepcopy(st.value), st, d - 1)
+                return self.generic_visit(n)
 
         return T().visit(e)
 
